@@ -80,9 +80,10 @@ def run(ctx):
     ctx.cov["type_name_variants_loaded"] = nvar
     # MetaModules whose user-defined controllers mirror controllers of embedded modules (built, saved, loaded, cloned)
     from .. import gen
-    for k in range(6):
+    for k in range(10):
         try:
-            mm = gen.rand_module(ctx.rnd, rv.modules.MODULE_CLASSES["MetaModule"], spec, depth=1, in_project=False)
+            mm = (gen.rand_module(ctx.rnd, rv.modules.MODULE_CLASSES["MetaModule"], spec, depth=1, in_project=False) if k < 6
+                  else gen.meta_negmin(ctx.rnd, spec) if k < 8 else gen.chain_meta(ctx.rnd, spec))
             fmt.load(api.Synth(mm).read())
             mm.clone()
         except Exception:
